@@ -26,7 +26,7 @@ def history_instr(draw):
     if k == 5:
         if draw(st.booleans()):
             return {"op": "vcompress", "o": draw(st.integers(0, 9)), "a": a, "method": draw(st.sampled_from(["1site", "2site"]))}
-        return draw(chain.gauge_instr("S"))
+        return draw(chain.gauge_instr(draw(st.sampled_from(["S", "S", "O", "O"]))))
     ins = draw(arith_instr())
     return ins
 
@@ -52,6 +52,12 @@ def cases(draw, tier):
         else:
             prog.append(draw(chain.mpo_instr(spec)))
         prog.append({"op": "apply", "o": -1, "a": draw(st.integers(0, 9)), "meth": draw(st.integers(0, 1))})
+        if draw(st.booleans()):
+            # the same operator in another gauge (qn centre moved), applied again
+            g = draw(chain.gauge_instr("O"))
+            g["a"] = -1
+            prog.append(g)
+            prog.append({"op": "apply", "o": -1, "a": draw(st.integers(0, 9)), "meth": draw(st.integers(0, 1))})
     ham = draw(gen.hermitian_hamiltonian(spec, max_terms=4))
     for _ in range(draw(st.integers(2, 8 if tier == "quick" else 14))):
         prog.append(draw(history_instr()))
@@ -215,6 +221,8 @@ class C06(Prop):
     assumptions = ["expected sector tracked by the harness: start sector + sum of operator charges",
                    "label validity computed from raw tensors (entries above 1e-10 of the tensor's maximum count as non-zero)",
                    "operators carry one definite charge (DESIGN §3.8); VMF/CMF are started from non-singular bonds"]
+
+    known_matchers = {"F27": lambda spec, sig, msg: sig == "observe.distance.common_prefactor_ignored"}
 
     def budget(self, tier):
         return dict(examples=320, shards=16) if tier == "quick" else dict(examples=10000, shards=16)
